@@ -147,6 +147,13 @@ func genConfig(rt *rapid.T, p *Profile) Config {
 	if p.Defects && rapid.IntRange(0, 11).Draw(rt, "noauth") == 0 {
 		cfg.NoAuth = true
 	}
+	if (p.Defects || p.Name == "C04" || p.Name == "C03") && cfg.Quota == 0 && rapid.IntRange(0, 3).Draw(rt, "emptyUserID") == 0 {
+		cfg.EmptyUserID = true // the operator's AuthHandler does not use user ids
+	}
+	switch p.Name {
+	case "C01", "C02", "C06", "C07", "C15":
+		cfg.ProbeChanDeleted = rapid.IntRange(0, 1).Draw(rt, "probeChanDeleted") == 0
+	}
 	if p.SlowCB && rapid.IntRange(0, 2).Draw(rt, "slowcb") == 0 {
 		cfg.CallbackSleepS = rapid.SampledFrom([]int{1, 5, 31, 301, 601}).Draw(rt, "cbSleep")
 		cfg.SlowCallback = rapid.SampledFrom([]string{"AllocCreated", "AllocDeleted", "PermCreated", "PermCreated", "all"}).Draw(rt, "cbWhich")
@@ -242,6 +249,14 @@ func genStep(rt *rapid.T, p *Profile, cfg *Config, i int) Step { //nolint:cyclop
 			st.Life = int64(rapid.Uint32().Draw(rt, "lifeR"))
 		}
 		st.RespLost = rapid.IntRange(0, 7).Draw(rt, "refreshRespLost") == 0
+		st.Retx = rapid.IntRange(0, 4).Draw(rt, "refreshRetx") == 0 // the same transaction again (a retransmission, seconds or minutes later)
+		if p.Odd && !st.Retx {
+			if rapid.IntRange(0, 5).Draw(rt, "rtxfrom") == 0 {
+				st.TxFrom = rapid.IntRange(1, nc).Draw(rt, "rtxFromC")
+			} else if rapid.IntRange(0, 5).Draw(rt, "rtxExtreme") == 0 {
+				st.TxFrom = rapid.SampledFrom([]int{-1, -1, -2}).Draw(rt, "rtxExtremeV")
+			}
+		}
 		if rapid.IntRange(0, 7).Draw(rt, "refreshTie") == 0 {
 			st.Rel = "tie" // sent at the very instant the allocation expires
 		} else if rapid.IntRange(0, 7).Draw(rt, "rfam") == 0 || (p.Odd && rapid.IntRange(0, 5).Draw(rt, "rfamOdd") == 0) {
@@ -255,6 +270,9 @@ func genStep(rt *rapid.T, p *Profile, cfg *Config, i int) Step { //nolint:cyclop
 			st.P = append(st.P, peer("p"))
 		}
 		st.RespLost = rapid.IntRange(0, 11).Draw(rt, "respLost") == 0
+		if p.Odd && rapid.IntRange(0, 7).Draw(rt, "ptxfrom") == 0 {
+			st.TxFrom = rapid.SampledFrom([]int{-1, -2, 1, 1, min(2, nc), nc}).Draw(rt, "ptxFromV")
+		}
 		if k == 1 && rapid.IntRange(0, 7).Draw(rt, "permTie") == 0 {
 			st.Rel, st.RespLost = "tie", false // sent at the very instant the permission expires
 		}
@@ -266,6 +284,9 @@ func genStep(rt *rapid.T, p *Profile, cfg *Config, i int) Step { //nolint:cyclop
 		st.P = []int{peer("p")}
 		st.Ch = rapid.OneOf(rapid.IntRange(0, 2), rapid.IntRange(0, len(ChannelSlots)-1)).Draw(rt, "ch")
 		st.RespLost = rapid.IntRange(0, 11).Draw(rt, "respLost") == 0
+		if p.Odd && rapid.IntRange(0, 7).Draw(rt, "ctxfrom") == 0 {
+			st.TxFrom = rapid.SampledFrom([]int{-1, -2, 1, 1, min(2, nc), nc}).Draw(rt, "ctxFromV")
+		}
 		if rapid.IntRange(0, 7).Draw(rt, "chanTie") == 0 {
 			st.Rel, st.RespLost = "tie", false // sent at the very instant the binding expires
 		} else if rapid.IntRange(0, 9).Draw(rt, "chanAllocTie") == 0 {
@@ -452,6 +473,28 @@ func genFragment(rt *rapid.T, p *Profile, cfg *Config) []Step {
 		if rapid.IntRange(0, 1).Draw(rt, "frebind") == 0 {
 			out = append(out, Step{Op: "ChannelBind", C: c, P: []int{peer2}, Ch: ch, Life: -1}, Step{Op: "ChannelBind", C: c, P: []int{peer}, Ch: ch2, Life: -1})
 		}
+	case "txpair":
+		// two clients use the same transaction id for the same kind of request, seconds apart:
+		// what the first one's transaction did must not decide the fate of the second one's
+		c2 := (c + 1 + rapid.IntRange(0, max(len(cfg.Clients)-2, 0)).Draw(rt, "fc2")) % len(cfg.Clients)
+		first := Step{Op: rapid.SampledFrom([]string{"Refresh", "Refresh", "Refresh", "CreatePermission", "ChannelBind"}).Draw(rt, "fpairOp"), C: c, P: []int{peer}, Ch: ch, Life: -1,
+			TxFrom: rapid.SampledFrom([]int{0, 0, -1, -2}).Draw(rt, "fpairTx")}
+		if first.Op == "Refresh" {
+			first.Life = rapid.SampledFrom([]int64{0, 0, 0, 600, -1}).Draw(rt, "fpairLife")
+		}
+		second := first
+		second.C = c2
+		if first.TxFrom == 0 {
+			second.TxFrom = c + 1
+		}
+		out = append(out, first)
+		if rapid.IntRange(0, 2).Draw(rt, "fpairGap") > 0 {
+			out = append(out, Step{Op: "Sleep", C: c, N: rapid.SampledFrom([]int{1, 5, 20, 39, 41}).Draw(rt, "fpairGapS"), Life: -1})
+		}
+		out = append(out, second)
+		if first.Op == "Refresh" && first.Life == 0 && rapid.IntRange(0, 1).Draw(rt, "fpairRealloc") == 0 {
+			out = append(out, Step{Op: "Allocate", C: c, Life: -1}, Step{Op: "Allocate", C: c2, Life: -1})
+		}
 	case "stall":
 		// a stream client authorises a peer, stops reading while the peer floods it, and its
 		// allocation is torn down meanwhile
@@ -479,7 +522,12 @@ func genFragment(rt *rapid.T, p *Profile, cfg *Config) []Step {
 			}
 		}
 		out = append(out, Step{Op: "CreatePermission", C: c, P: []int{peer}, Life: -1},
-			Step{Op: "Sleep", C: c, Rel: "alloc-", N: margin, Life: -1}, Step{Op: "Refresh", C: c, Life: life2},
+			Step{Op: "Sleep", C: c, Rel: "alloc-", N: margin, Life: -1}, Step{Op: "Refresh", C: c, Life: life2})
+		if rapid.IntRange(0, 1).Draw(rt, "fretx") == 0 {
+			// the answer is slow or lost: the client sends the same Refresh again a little later
+			out = append(out, Step{Op: "Sleep", C: c, N: rapid.SampledFrom([]int{1, 2, 3, 7, 20}).Draw(rt, "fretxGap"), Life: -1}, Step{Op: "Refresh", C: c, Life: life2, Retx: true})
+		}
+		out = append(out,
 			Step{Op: "Sleep", C: c, Rel: "alloc-", N: margin + 1, Life: -1}, Step{Op: "CreatePermission", C: c, P: []int{peer}, Life: -1},
 			Step{Op: "Sleep", C: c, Rel: "alloc-", N: margin, Life: -1}, data("Send"), data("PeerData"),
 			Step{Op: "Sleep", C: c, Rel: "alloc+", N: margin, Life: -1}, data("Send"), data("PeerData"), Step{Op: "Refresh", C: c, Life: -1},
